@@ -73,17 +73,30 @@ pub fn c03(kind: Kind, buf: &[u8], o: &Obs) -> Option<Fail> {
             }
             // strictly empty line
             let strict = first_empty_line_end(kind, buf, None);
-            if strict == Some(n) {
+            let sbf_exact = cfg & SBF != 0 && kind != Kind::Hdr && !(kind == Kind::Resp && cfg & FOLD != 0);
+            if strict == Some(n) && !sbf_exact {
                 return None;
             }
             if cfg & SBF != 0 && kind != Kind::Hdr {
-                // weaker reading for the carve-out (it interacts with folding / ignoring, which the
-                // statement does not spell out): n may also be the end of a whitespace-only line that
-                // starts before the first stored header's line and before the first strictly empty line
                 let lim = match o.res.headers.first() {
                     Some((Loc::In(off, _), _)) => *off as usize,
                     _ => usize::MAX,
                 };
+                let fold = kind == Kind::Resp && cfg & FOLD != 0;
+                if !fold {
+                    // without folding every LF-terminated line is a line of its own, so the carve-out
+                    // is exact: the head ends at the first line that is strictly empty, or
+                    // whitespace-only and located before the first stored header
+                    let want = first_empty_line_end(kind, buf, Some(lim));
+                    if want == Some(n) {
+                        return None;
+                    }
+                    return fail("n_not_at_first_empty_line", format!("n={} first empty (or, with space-before-first-header, whitespace-only) line ends at {:?}", n, want));
+                }
+                // with folding enabled too, a whitespace-led line after a header line is a continuation;
+                // the statement does not spell out this interplay, so the weaker reading is taken:
+                // n may also be the end of a whitespace-only line that starts before the first stored
+                // header and before the first strictly empty line
                 if strict.map_or(true, |e| n < e) && n >= 1 && buf[n - 1] == LF {
                     let ls = buf[..n - 1].iter().rposition(|c| *c == LF).map_or(0, |p| p + 1);
                     let line = &buf[ls..n];
